@@ -56,4 +56,5 @@ pub open spec fn owned(m: ReManager, e: RegLan) -> bool { term_of(m.store.terms@
 pub open spec fn mgr_extends(m2: ReManager, m1: ReManager) -> bool {
     m1.store.terms@.len() <= m2.store.terms@.len()
         && (forall|i: int| 0 <= i < m1.store.terms@.len() ==> #[trigger] m2.store.terms@[i] == m1.store.terms@[i])
+        && m2.deriv_cache == m1.deriv_cache
 }
